@@ -34,6 +34,8 @@ UserClasses == {
   Cls("GVal",   <<"ValueError">> \o GE, TRUE, TRUE, "same", "ok", "user"),        \* class E(GlomError, ValueError)
   Cls("GCopy",  GE, TRUE, TRUE, "fail", "ok", "user"),                            \* __init__(a, b) -> (a+b,), own __copy__
   Cls("StopIter", EX, TRUE, FALSE, "same", "ok", "builtin"),                      \* StopIteration(3)
+  WithEq(Cls("UEqRaise", EX, TRUE, FALSE, "same", "ok", "user"), "raises"),      \* __eq__: self.code == other.code
+  WithEq(Cls("UEqAll", EX, TRUE, FALSE, "same", "ok", "user"), "always"),         \* __eq__ -> True
   Falsy(Cls("UFalsy", EX, TRUE, FALSE, "same", "ok", "user")),                    \* __len__ -> 0: bool(e) is False
   Falsy(Cls("GFalsy", GE, TRUE, TRUE, "same", "ok", "user")),                     \* GlomError subclass, __bool__ -> False
   \* user subclasses of the library's own error classes, constructed the way the library does
@@ -74,7 +76,13 @@ LeafPool == {Ctx("checkval", "-", "-", "-", "-"), Ctx("pathget", "-", "-", "-", 
              Ctx("geniter", "k1", "-", "-", "-"), Ctx("geniter", "k2", "-", "-", "-"),
              \* targ: the fault is inside the index / argument spec of a T operation
              Ctx("targ", "idx_spec", "-", "-", "-"), Ctx("targ", "idx_invoke", "-", "-", "-"),
-             Ctx("targ", "call_spec", "-", "-", "-")}
+             Ctx("targ", "call_spec", "-", "-", "-"),
+             \* firstkey: inside the key spec of First(key) / Iter().first(key) / ('items', First(key))
+             Ctx("firstkey", "first", "-", "-", "-"), Ctx("firstkey", "iterfirst", "-", "-", "-"),
+             Ctx("firstkey", "afterstep", "-", "-", "-"),
+             \* afterstar: in a method call / index spec that follows a wildcard of a T-style path
+             Ctx("afterstar", "call", "-", "-", "-"), Ctx("afterstar", "ss_call", "-", "-", "-"),
+             Ctx("afterstar", "idx_spec", "-", "-", "-")}
 
 Pool(n) == IF Rich \/ n <= 1 THEN RichPool ELSE CorePool
 
@@ -100,8 +108,11 @@ mcvars == <<vars, lawv>>
 
 \* StopIteration crossing a generator frame becomes RuntimeError by Python's own rule (PEP 479):
 \* the lazily evaluated Iter() construct and a generator target are outside the universe for it
+\* (also First's key, which a generator-based helper drives); a fault that is itself a
+\* PathAccessError is a documented "miss" after a wildcard (C14), not an error to propagate
 StopIterOK(cs, lf) ==
-  lf.id = "StopIter" => \A i \in 1..Len(cs) : ~(cs[i].k = "pass" /\ cs[i].v = "iter") /\ cs[i].k # "geniter"
+  /\ lf.id = "StopIter" => \A i \in 1..Len(cs) : ~(cs[i].k = "pass" /\ cs[i].v = "iter") /\ cs[i].k \notin {"geniter", "firstkey"}
+  /\ lf.id = "SubPAE" => \A i \in 1..Len(cs) : cs[i].k # "afterstar"
 
 Init ==
   /\ lawv = ""
